@@ -67,8 +67,26 @@ def torch_shim():
 
     def argmax(x, dim=None):
         return symnp.asarray(x).argmax(dim)
+    def roll(x, shifts, dims=None):
+        x = symnp.asarray(x)
+        if dims is None:
+            raise NotImplementedError('torch.roll without dims')
+        n = x.shape[dims]
+        sh = shifts % n if n else 0
+        if sh == 0:
+            return x.copy()
+        key_a = [slice(None)] * x.ndim
+        key_b = [slice(None)] * x.ndim
+        key_a[dims] = slice(n - sh, n)
+        key_b[dims] = slice(0, n - sh)
+        return symnp.concatenate([x[tuple(key_a)].copy(), x[tuple(key_b)].copy()], dims)
     t.cat = cat
     t.argmax = argmax
+    t.roll = roll
+
+    def _missing(name):
+        raise NotImplementedError('torch.%s is not provided by the torch shim' % name)
+    t.__getattr__ = _missing
     from symx import shims
     t.nn = shims.Inert('torch.nn')
     t.cuda = shims.Inert('torch.cuda')
